@@ -20,13 +20,17 @@ func ruleACCUM(w *World, r *Report) {
 		loc := fn.Params[3]
 		var upd *ssa.MapUpdate
 		nFresh := 0
-		for _, b := range fn.Blocks {
+		var putBlocks []*ssa.BasicBlock
+		for _, rf := range region(fn) {
+			putBlocks = append(putBlocks, rf.Blocks...)
+		}
+		for _, b := range putBlocks {
 			for _, in := range b.Instrs {
 				mu, ok := in.(*ssa.MapUpdate)
 				if !ok {
 					continue
 				}
-				if mu.Key == ssa.Value(loc) {
+				if upTo(w, fn, mu.Key) == ssa.Value(loc) {
 					upd = mu
 					continue
 				}
@@ -58,14 +62,29 @@ func ruleACCUM(w *World, r *Report) {
 		if upd == nil {
 			r.bad("ACCUM", "A-put:add", w.pos(fn.Pos()), "put does not add the location to a looked-up set (no set[location] = true)")
 		} else {
+			// on every path to the return: in put itself, or in a private helper whose (only) call
+			// in turn lies on every path to put's return
 			okDom := true
-			for _, b := range fn.Blocks {
-				if len(b.Instrs) == 0 {
-					continue
+			var at ssa.Instruction = upd
+			for d := 0; d < 4 && okDom; d++ {
+				f := at.Parent()
+				for _, b := range f.Blocks {
+					if len(b.Instrs) == 0 {
+						continue
+					}
+					if _, isRet := b.Instrs[len(b.Instrs)-1].(*ssa.Return); isRet && !at.Block().Dominates(b) {
+						okDom = false
+					}
 				}
-				if _, isRet := b.Instrs[len(b.Instrs)-1].(*ssa.Return); isRet && !upd.Block().Dominates(b) {
+				if f == fn {
+					break
+				}
+				site := w.uniqueSite(f)
+				if site == nil {
 					okDom = false
+					break
 				}
+				at = site
 			}
 			if okDom {
 				r.ok("ACCUM", "A-put:add", w.ipos(upd), "set[location] = true is executed on every path to the return")
